@@ -384,6 +384,62 @@ func vhSequenceRef(ms []%[1]s) %[2]s {
 
 var Uncovered = map[string][]string{}
 
+// Covered: members handled by another generator of the same check (filtered out of Uncovered);
+// Elsewhere: members of a family that are decided by another property's check (reported separately).
+var Covered = map[string]map[string]bool{}
+var Elsewhere = map[string][]string{}
+
+func markCovered(id, name string) {
+	if Covered[id] == nil {
+		Covered[id] = map[string]bool{}
+	}
+	Covered[id][name] = true
+}
+
+// UncoveredFor returns the members of the checked families that no harness of this check instantiates.
+func UncoveredFor(id string) []string {
+	var out []string
+	seen := map[string]bool{}
+	for _, n := range Uncovered[id] {
+		if Covered[id][n] || seen[n] {
+			continue
+		}
+		seen[n] = true
+		out = append(out, n)
+	}
+	sort.Strings(out)
+	return out
+}
+
+// monadCovered lists the exported functions of a package for which the monad-family generator emits a harness.
+func monadCovered(repo, pkg string) map[string]bool {
+	out := map[string]bool{}
+	for _, p := range monadProfiles {
+		if p.pkg != pkg {
+			continue
+		}
+		fns, err := exportedFuncs(filepath.Join(repo, p.pkg))
+		if err != nil {
+			return out
+		}
+		g := &gen{p: p}
+		var unc []string
+		for n := range fns {
+			g.emit(fns[n], &unc)
+		}
+		bad := map[string]bool{}
+		for _, u := range unc {
+			bad[u] = true
+		}
+		for n := range fns {
+			if !bad[pkg+"."+n] {
+				out[n] = true
+			}
+		}
+	}
+	return out
+}
+
 func genMonadFamily(id string) genFn {
 	return func(tier, repo string) ([]File, error) {
 		var out []File
